@@ -102,6 +102,7 @@ type sock struct {
 	port int
 	bufs map[int][]byte
 	pend *pending
+	bad  int // corrupt datagrams sent to this socket (each is discarded by the receive call that meets it)
 	// parked/finished async write
 	wop   int
 	wapi  string
@@ -797,6 +798,7 @@ func (e *env) drain() error {
 		if id == writerID && e.kind == "mc" {
 			continue
 		}
+		stalls := 0
 		for k := 0; k < 400; k++ {
 			if s.pend == nil {
 				api := "AsyncRead"
@@ -820,10 +822,14 @@ func (e *env) drain() error {
 			}
 			if s.pend != nil && s.pend.op == op {
 				// readable, polled, and the parked read is still there: let the monitor see it
-				break
+				// (a corrupt datagram explains one such round each)
+				stalls++
+				if stalls > s.bad {
+					break
+				}
 			}
 		}
-		if n := sockDrops(s.fd); n > 0 {
+		if n := sockDrops(s.fd); n > s.bad {
 			return fmt.Errorf("kernel dropped %d datagrams at receiver %d (receive buffer); scenario %d unusable", n, id, e.d.sid)
 		}
 	}
@@ -1042,6 +1048,45 @@ func (d *driver) scenario(steps []Step) error {
 			d.emit(ev)
 			if serr != nil {
 				return fmt.Errorf("raw sendto %s:%d (%d bytes): %w", dip, rcv.port, n, serr)
+			}
+			if _, err := e.flush(); err != nil {
+				return err
+			}
+		case "Corrupt":
+			// a datagram with a wrong UDP checksum, longer than the 76 bytes up to which the kernel verifies at
+			// arrival: it is queued, the socket polls readable, and the receive call that meets it drops it and
+			// reports would-block - readiness without a datagram behind it
+			rcv := e.socks[st.P]
+			dip := rcv.ip
+			if dip == "0.0.0.0" {
+				dip = "127.0.0.1"
+			}
+			rawIP, ok := e.senders[-1]
+			if !ok {
+				rawIP, err = unix.Socket(unix.AF_INET, unix.SOCK_RAW|unix.SOCK_CLOEXEC, unix.IPPROTO_UDP)
+				if err != nil {
+					return fmt.Errorf("raw IP socket (needed for corrupt datagrams): %w", err)
+				}
+				e.senders[-1] = rawIP
+			}
+			e.did++
+			n := 200
+			pkt := make([]byte, 8+n)
+			sport := 40000 + e.did%1000
+			pkt[0], pkt[1] = byte(sport>>8), byte(sport)
+			pkt[2], pkt[3] = byte(rcv.port>>8), byte(rcv.port)
+			pkt[4], pkt[5] = byte((8+n)>>8), byte(8+n)
+			// not the checksum of this datagram. The payload is all zero: the kernel copies a datagram into the
+			// caller's buffer while it verifies the checksum, so the discarded bytes do land there - zeros leave
+			// the (zeroed) read buffers as the projection expects them
+			pkt[6], pkt[7] = 0xDE, 0xAD
+			rcv.bad++
+			ev := Ev{Ev: "Send", Did: e.did, Len: 0, G: dip, Port: rcv.port, Src: dip, Sport: sport}
+			serr := unix.Sendto(rawIP, pkt, 0, &unix.SockaddrInet4{Addr: ip4(dip)})
+			ev.Err = errClass(serr)
+			d.emit(ev)
+			if serr != nil {
+				return fmt.Errorf("raw IP sendto %s (%d bytes): %w", dip, len(pkt), serr)
 			}
 			if _, err := e.flush(); err != nil {
 				return err
